@@ -49,10 +49,10 @@ Section BridgeTx.
     wf cd t = true ->
     exists rest, enc cd t = le 4 (fst (hdr_to (fst t))) ++ rest /\ fst (hdr_to (fst t)) < 4294967296.
   Proof.
-    destruct t as [v body]. unfold c_tx. rewrite wf_dep. cbn [fst snd]. intros H.
+    destruct t as [v body]. unfold c_tx. cbn [c_pair c_dep c_refine c_vec wf]. cbn [fst snd]. intros H.
     apply andb_true_iff in H as [Hv _].
     unfold c_version in Hv. cbn [c_iso wf] in Hv. apply andb_true_iff in Hv as [_ Hv].
-    unfold c_hdr_raw in Hv. rewrite wf_refine, wf_dep in Hv.
+    unfold c_hdr_raw in Hv. cbn [c_pair c_dep c_refine c_vec wf] in Hv.
     apply andb_true_iff in Hv as [Hv _]. apply andb_true_iff in Hv as [Hh _].
     apply wf_u32 in Hh.
     eexists. split; [|exact Hh].
@@ -67,7 +67,7 @@ Section BridgeTx.
     unfold legacy_hdr. rewrite E, <- app_assoc.
     rewrite (u32_at_head _ _ Hh).
     destruct t as [v body]. cbn [fst] in *.
-    unfold c_tx in W'. rewrite wf_dep in W'. cbn [fst snd] in W'. apply andb_true_iff in W' as [Hv _].
+    unfold c_tx in W'. cbn [c_pair c_dep c_refine c_vec wf] in W'. cbn [fst snd] in W'. apply andb_true_iff in W' as [Hv _].
     unfold c_version in Hv. cbn [c_iso wf] in Hv. apply andb_true_iff in Hv as [Hv _].
     destruct v as [n| | | |]; [| vm_compute; reflexivity ..].
     cbn [hdr_to fst is_legacy]. unfold txv_ok in Hv. apply andb_true_iff in Hv as [_ Hv].
@@ -85,7 +85,7 @@ Section BridgeTx.
     | _, _ => False
     end.
   Proof.
-    destruct t as [v body]. unfold c_tx. rewrite wf_dep. cbn [fst snd]. intros H.
+    destruct t as [v body]. unfold c_tx. cbn [c_pair c_dep c_refine c_vec wf]. cbn [fst snd]. intros H.
     apply andb_true_iff in H as [_ H].
     destruct v; cbn [c_body] in H; destruct body as [x|[x|x]]; cbn [c_inl c_inr wf] in H;
       try discriminate; exact I.
@@ -105,11 +105,11 @@ Section BridgeTx.
   Proof.
     intros W L. pose proof (body_shape t W) as S. unfold effective_branch.
     destruct t as [v body]. cbn [fst snd] in *.
-    unfold c_tx in W. rewrite wf_dep in W. cbn [fst snd] in W. apply andb_true_iff in W as [_ W].
+    unfold c_tx in W. cbn [c_pair c_dep c_refine c_vec wf] in W. cbn [fst snd] in W. apply andb_true_iff in W as [_ W].
     destruct v; try discriminate L; destruct body as [x|[x|x]]; try contradiction;
       cbn [c_body c_inl c_inr wf] in W.
-    - unfold c_v5 in W. rewrite wf_dep in W. apply andb_true_iff in W as [W _].
-      unfold c_hdrfrag in W. rewrite wf_pair, wf_refine in W.
+    - unfold c_v5 in W. cbn [c_pair c_dep c_refine c_vec wf] in W. apply andb_true_iff in W as [W _].
+      unfold c_hdrfrag in W. cbn [c_pair c_dep c_refine c_vec wf] in W.
       apply andb_true_iff in W as [W _]. apply andb_true_iff in W as [W _]. apply wf_u32 in W.
       cbn [c_tx c_dep enc fst snd c_body c_inr c_inl c_v5 c_hdrfrag c_pair c_refine
            c_version c_iso c_hdr_raw hdr_to c_u32le c_uint c_opt].
@@ -118,8 +118,8 @@ Section BridgeTx.
       rewrite <- !app_assoc.
       rewrite (app_assoc (le 4 _) (le 4 _)).
       apply u32_at_app; [rewrite app_length, !le_length; reflexivity | exact W].
-    - unfold c_v6 in W. rewrite wf_dep in W. apply andb_true_iff in W as [W _].
-      unfold c_hdrfrag in W. rewrite wf_pair, wf_refine in W.
+    - unfold c_v6 in W. cbn [c_pair c_dep c_refine c_vec wf] in W. apply andb_true_iff in W as [W _].
+      unfold c_hdrfrag in W. cbn [c_pair c_dep c_refine c_vec wf] in W.
       apply andb_true_iff in W as [W _]. apply andb_true_iff in W as [W _]. apply wf_u32 in W.
       cbn [c_tx c_dep enc fst snd c_body c_inr c_inl c_v6 c_hdrfrag c_pair c_refine
            c_version c_iso c_hdr_raw hdr_to c_u32le c_uint c_opt].
